@@ -1060,7 +1060,9 @@ fn longlife(a: &Args) {
                     let _ = fy.next(&mut g);
                 }
                 fy.reset();
-                let near = |x: u64| (c % x) < 3 || (c % x) > x - 3;
+                // c is exactly the number of resets this object has gone through (a check point draws, it never resets):
+                // every reset count within 6 of a multiple of 2^16 (and of 2^8 early on) is followed by a comparison
+                let near = |x: u64| (c % x) <= 6 || (c % x) >= x - 6;
                 if near(256) && c < 2000 || near(65536) || c % 9973 == 0 {
                     checks += 1;
                     let tape: Vec<u64> = (0..m).map(|_| rng.random_range(0..ONE)).collect();
@@ -1079,7 +1081,6 @@ fn longlife(a: &Args) {
                     if !same && bad.len() < 5 {
                         bad.push(json!({"resets_before": c, "got": got, "new_object": want}));
                     }
-                    fy.reset();
                 }
             }
             (bad, checks)
